@@ -226,12 +226,13 @@ class Trace:
                                 eb = max(same, key=lambda x: x.created)
                         if eb is not None:
                             seen_blind.append((i, int(eb.created), int(eb.ttl)))
-                    # what the code's own look-up finds: the scope-blind view on a tree with the candidate repair of D29
-                    # (`_QueryResponse._get_unique_ignoring_scope`), the exact-match view otherwise
-                    if hasattr(qh._QueryResponse, "_get_unique_ignoring_scope"):
-                        seen = seen_blind
+                    # "the host saw the record multicast" is the scope-blind view, unconditionally: D29 is repaired in /repo (e375581), and the
+                    # expectation must not follow symbols of the tree under test (review 3): on a tree whose look-up misses the scoped copy
+                    # the model (and the oracle) still say "seen", and the difference is reported
+                    seen = seen_blind
                     tr.cur["asm"] = dict(seen=seen, seen_blind=seen_blind, addr=addr, port=port, npkts=len(packets), first_now=int(packets[0].now) if packets else None,
-                                         last_now=int(packets[-1].now) if packets else None, datas=[bytes(p.data) for p in packets])
+                                         last_now=int(packets[-1].now) if packets else None, datas=[bytes(p.data) for p in packets],
+                                         nows=[int(p.now) for p in packets])
                 return orig(self_, packets, addr, port, transport, v6)
             return handle_assembled_query
 
@@ -327,16 +328,23 @@ def parse_query(zc, uni, data, now, scope=None):
             kept = qh._answer_question(q, s.strategy_type, s.types, s.services, DNSRRSet(list(ans)))
             cands = [(uni.id(r), int(r.ttl), sorted(uni.id(a) for a in adds), r not in kept) for r, adds in ans.items()]
             items.append((bool(q.unique), cands))
-    # known answers are numbered as the responder compares them with its own records: a tree with the C03 repair of scoped known
-    # answers (`_without_scope_id` in query_handler.py) drops the scope id an IPv6 socket stamps on AAAA records first; the
-    # unrepaired tree compares them as parsed (the harness follows whichever tree it runs on)
-    import zeroconf._handlers.query_handler as _qh
-    _strip = getattr(_qh, "_without_scope_id", None)
-    known = [(uni.id(_strip(r) if _strip else r), int(r.ttl)) for r in m.answers()]
+    # known answers are numbered as the property compares them with the host's own records: without the scope id an IPv6 socket stamps
+    # on AAAA records (D25, repaired in /repo).  Done here, unconditionally, not with the tree's own helper (review 3)
+    known = [(uni.id(without_scope(r)), int(r.ttl)) for r in m.answers()]
     pkt = dict(now=int(now), id=m.id, flags=m.flags, num_auth=m._num_authorities, nq=len(m._questions),
                q0type=m._questions[0].type if m._questions else 0, items=items, known=known,
                questions=[(q.name, q.type, q.class_, bool(q.unique)) for q in m._questions])
     return True, True, qu_query, pkt
+
+
+def without_scope(r):
+    """the record as it is on the wire: an address record heard on an IPv6 socket carries that socket's scope id, which is no part of
+    the record"""
+    from zeroconf import _dns as d
+
+    if isinstance(r, d.DNSAddress) and r.scope_id is not None:
+        return d.DNSAddress(r.name, r.type, r.class_ | (0x8000 if r.unique else 0), r.ttl, r.address, created=r.created)
+    return r
 
 
 def seen_str(seen):
@@ -399,6 +407,25 @@ def decode_out(tr, o):
 
 def block_obs(tr, b, dedupe_mcast=False):
     outs = [decode_out(tr, o) for o in b["outs"]]
+    # a reply that needed several datagrams (same `async_send` call, same destination, different contents: `DNSOutgoing.packets()`) is
+    # ONE reply: the union of its sections; the echoed question section is in the first packet only
+    calls = {}
+    for o, x in zip(b["outs"], outs):
+        calls.setdefault((o.get("call"), o["mcast"], o["to_full"]), []).append(x)
+    for (call, mc, to), xs in calls.items():
+        if len(set(xs)) > 1:
+            member = lambda o: o.get("call") == call and o["mcast"] == mc and o["to_full"] == to
+            grp = [o for o in b["outs"] if member(o)]
+            ans = sorted({r for o in grp for r in o["ans"]})
+            add = sorted({r for o in grp for r in o["add"]} - set(ans))
+            if mc:
+                merged = "m:%s:%s" % (C.natlist(ans), C.natlist(add))
+            else:
+                m0 = grp[0]["msg"]
+                merged = "u:%d:%d:%d:%d:%s:%s" % (tr.addr_id(grp[0]["akey"]), to[1], m0.id, max(len(o["msg"]._questions) for o in grp), C.natlist(ans), C.natlist(add))
+            outs = [x for o, x in zip(b["outs"], outs) if not member(o)] + [merged]
+            b["outs"] = [o for o in b["outs"] if not member(o)] + \
+                [dict(grp[0], ans=ans, add=add, ttls={k: v for o in grp for k, v in o["ttls"].items()}, packets=len(grp))]
     if dedupe_mcast:
         # one logical multicast is one datagram per socket: identical descriptors count once
         outs = [x for i, x in enumerate(outs) if not (x.startswith("m:") and x in outs[:i])]
@@ -413,12 +440,14 @@ def block_obs(tr, b, dedupe_mcast=False):
 TYPES = ["_a._tcp.local.", "_b._tcp.local."]
 
 
-def make_infos(rng, ttl_bias=None):
+def make_infos(rng, ttl_bias=None, n=None, big=False, aaaa=False):
+    """n / big / aaaa: the special scenario families of C12 (many services with large TXT records: replies of several datagrams;
+    every host with an AAAA record)"""
     from zeroconf import ServiceInfo
 
     import random as _random
 
-    n = rng.choice([1, 1, 2, 2, 3])
+    n = n if n is not None else rng.choice([1, 1, 2, 2, 3])
     # spelling of registered names: mixed case in about half of the services (drawn from a fork of the generator's state so
     # that existing scenarios keep everything else)
     sub = _random.Random(repr(rng.getstate()[1][:8]))
@@ -429,14 +458,15 @@ def make_infos(rng, ttl_bias=None):
         cap = sub.random() < 0.5
         server = infos[0].server if share_host else ("MyHost%d.local." if cap else "h%d.local.") % i
         addrs = [socket.inet_aton("10.0.0.%d" % (i + 1))]
-        if rng.random() < 0.35:
+        if rng.random() < 0.35 or aaaa:
             addrs.append(socket.inet_pton(socket.AF_INET6, "fe80::%d" % (i + 1)))
         pool = ttl_bias or [1, 2, 3, 4, 5, 120, 120, 4500]
         if rng.random() < 0.5:
             host_ttl, other_ttl = 120, 4500
         else:
             host_ttl, other_ttl = rng.choice(pool), rng.choice(pool)
-        infos.append(ServiceInfo(t, ("MyPrinter%d.%s" if cap else "s%d.%s") % (i, t), 8000 + i, addresses=addrs, server=server, properties={"k": "v%d" % i},
+        infos.append(ServiceInfo(t, ("MyPrinter%d.%s" if cap else "s%d.%s") % (i, t), 8000 + i, addresses=addrs, server=server,
+                                 properties={"k": "v%d" % i} if not big else {"k": "v%d" % i, "blob": "x" * 200},
                                  host_ttl=host_ttl, other_ttl=other_ttl))
     return infos
 
